@@ -86,6 +86,11 @@ func genC23Replies(t *rapid.T, n int) []c23Reply {
 		case 1, 2, 7:
 			r.Msg = rapid.SampledFrom([]string{"", "boom", "requested key is not in the keyring", "x"}).Draw(t, "msg")
 		}
+		if r.Kind == 6 && rapid.IntRange(0, 2).Draw(t, "note") == 0 {
+			// a successful listing that also has something to say: what a node
+			// sends when it had to truncate its key list
+			r.Msg = rapid.SampledFrom([]string{"truncated key list response, showing first 2 of 5 keys", "x"}).Draw(t, "notemsg")
+		}
 		if r.Kind == 2 && rapid.IntRange(0, 3).Draw(t, "emptymsg") > 0 && r.Msg == "" {
 			r.Msg = "failed"
 		}
